@@ -800,6 +800,13 @@ class Engine:
         if z3.is_true(goal):
             # still count trivially-true obligations: they were generated
             pass
+        # a goal that is literally a formula assumed behind a `hide` name on
+        # this path holds (the name itself is asserted): no solver needed
+        for ent in st.ghost.get("__hidden", {}).values():
+            for p_, f_ in (ent if isinstance(ent, list) else [ent]):
+                if z3.eq(goal, f_) or z3.eq(goal, z3.simplify(f_)):
+                    goal = p_
+                    break
         fc = self.cur
         name = f"{fc.key}/{kind}@{line}" + (f"[{label}]" if label else "")
         pathid = ".".join(map(str, st.decisions))
@@ -1925,7 +1932,8 @@ class Engine:
         st.ghost["__loop_entry"] = st.snapshot()
         for k, cl in enumerate(lc.inv):
             self.oblige(st, f"inv-entry(loop{ordinal})", line,
-                        self.spec_bool(st, cl), cl.props, label=str(k))
+                        self.spec_bool(st, cl), cl.props, label=str(k),
+                        extra_hyps=self.reveal_hyps(st, cl))
         entry_snap = st.ghost["__loop_entry"]
         self.havoc_for_loop(st, node, lc, hs)
         st.ghost["__loop_entry"] = entry_snap
@@ -1934,7 +1942,7 @@ class Engine:
         st.ghost["__axinst_off"] = True
         try:
             for cl in lc.inv:
-                st.assume(self.spec_bool(st, cl))
+                self.assume_clause(st, cl, self.spec_bool(st, cl))
         finally:
             st.ghost["__axinst_off"] = False
         for lm in getattr(lc, "lemmas", ()):
@@ -1973,9 +1981,15 @@ class Engine:
                 finally:
                     st.ghost["__axinst_off"] = False
             for k, cl in enumerate(lc.inv):
+                hy = self.reveal_hyps(st, cl)
+                if getattr(cl, "hide", None):
+                    # its own assumption at the start of the iteration
+                    own = Clause("True")
+                    own.reveal = (cl.hide,)
+                    hy = hy + self.reveal_hyps(st, own)
                 self.oblige(st, f"inv-preserved(loop{ordinal})", line,
                             self.spec_bool(st, cl), cl.props, label=str(k),
-                            extra_hyps=self.reveal_hyps(st, cl))
+                            extra_hyps=hy)
             if v0 is not None:
                 v1 = _as_int(self.spec_eval(st, lc.variant))
                 self.oblige(st, f"variant(loop{ordinal})", line,
@@ -2109,7 +2123,7 @@ class Engine:
         self.bind_params(st, fc, node)
         self.lib.init_ghosts(st, fc)
         for cl in fc.requires:
-            st.assume(self.spec_bool(st, cl))
+            self.assume_clause(st, cl, self.spec_bool(st, cl))
         for cl in fc.defs:
             st.assume(self.spec_bool(st, cl))
         st.old = st.snapshot()
